@@ -1,1 +1,1356 @@
-//! Property-specific engine extensions for C07 (owned by the C07 check).
+//! Property-specific engine extensions for C07 (owned by the C07 check): unilateral-close scenarios, a
+//! generated chain schedule with bounded confirmation delays, a ledger of the closed channel's coins kept
+//! from the consensus simulator alone, and the C07 oracles (a)-(e).
+//!
+//! Ground truth is `sim.chain` (what confirmed, who spent what), the recording signer's history (which
+//! commitment transactions exist and what they contain), the `Persist` history (when a monitor was handed a
+//! preimage) and the public results of `get_claimable_balances` / `Event::SpendableOutputs` /
+//! `Event::BumpTransaction`. Nothing reads crate-private monitor state.
+
+use crate::chain::Reject;
+use crate::ops::*;
+use crate::rec::*;
+use crate::sim::*;
+use bitcoin::hashes::Hash;
+use bitcoin::secp256k1::Secp256k1;
+use bitcoin::{OutPoint, ScriptBuf, Transaction, Txid};
+use lightning::chain::chaininterface::ConfirmationTarget;
+use lightning::chain::channelmonitor::{Balance, BalanceSource, ANTI_REORG_DELAY};
+use lightning::events::bump_transaction::BumpTransactionEvent;
+use lightning::events::Event;
+use lightning::ln::chan_utils::CommitmentTransaction;
+use lightning::sign::{OutputSpender, SpendableOutputDescriptor};
+use serde::{Deserialize, Serialize};
+use std::collections::{BTreeMap, BTreeSet, HashMap};
+use vcore::{pick, CaseResult, Ctx, Failure};
+
+// -------------------------------------------------------------------------------------------------
+// the generated case
+// -------------------------------------------------------------------------------------------------
+
+#[derive(Clone, Debug, Serialize, Deserialize)]
+pub enum Close {
+	/// `force_close_broadcasting_latest_txn` by one end. With the link up the peer receives the error message
+	/// and broadcasts its own commitment too (two conflicting closes; the schedule picks the winner); with
+	/// `cut_link` the peers are disconnected first so only one commitment is broadcast.
+	Force { by_funder: bool, cut_link: bool },
+	/// the latest holder commitment of one end is confirmed without that node having broadcast it (an earlier
+	/// instance / a watchtower did); mined at once so that it cannot be revoked in the meantime
+	MineHolder { of_funder: bool, cut_link: bool },
+}
+
+#[derive(Clone, Debug, Serialize, Deserialize)]
+pub enum Incl {
+	/// every mempool transaction, arrival order (first of conflicting ones wins)
+	All,
+	/// every mempool transaction, reverse arrival order (latest of conflicting ones wins)
+	Reverse,
+	/// only transactions that reached the case's maximum confirmation delay
+	Overdue,
+	/// overdue ones plus the pick-th mempool transaction
+	Pick(u16),
+	/// everything, transactions broadcast by this node first
+	Prefer(u16),
+}
+
+#[derive(Clone, Debug, Serialize, Deserialize)]
+pub enum Pre {
+	/// the recipient of a still-claimable payment calls `claim_funds` (late preimage)
+	Claim { pay: u16 },
+	/// the node's fee estimator now reports this feerate for on-chain sweeps
+	Fee { node: u16, rate: u32 },
+	/// `ChainMonitor::rebroadcast_pending_claims`
+	Rebroadcast { node: u16 },
+	Timer { node: u16 },
+	Style { node: u16, style: u8 },
+}
+
+#[derive(Clone, Debug, Serialize, Deserialize)]
+pub struct Step {
+	pub pre: Vec<Pre>,
+	pub incl: Incl,
+	/// deliver peer messages / forwards after the block (events are always processed)
+	pub pump: bool,
+}
+
+#[derive(Clone, Debug, Serialize, Deserialize)]
+pub struct Case {
+	pub spec: WorldSpec,
+	/// traffic before the closure (ends in a burst of sends and a partial settlement)
+	pub ops: Vec<Op>,
+	pub chan: u16,
+	pub close: Close,
+	pub steps: Vec<Step>,
+	/// a valid mempool transaction is confirmed at most this many blocks after it was first seen unless a
+	/// conflicting transaction confirmed first (the property presumes claims can confirm)
+	pub max_delay: u8,
+	/// order used by the deterministic tail (after the generated steps)
+	pub tail_reverse: bool,
+}
+
+// -------------------------------------------------------------------------------------------------
+// ledger types
+// -------------------------------------------------------------------------------------------------
+
+#[derive(Clone, Debug)]
+pub struct HtlcOut {
+	pub vout: u32,
+	/// node that offered the HTLC (its timeout path) and node that receives it (its preimage path)
+	pub offerer: usize,
+	pub receiver: usize,
+	pub amount_msat: u64,
+	pub cltv: u32,
+	pub hash: [u8; 32],
+	pub pay: Option<usize>,
+}
+
+impl HtlcOut {
+	pub fn sat(&self) -> u64 {
+		self.amount_msat / 1000
+	}
+}
+
+/// A channel whose funding output was spent by a confirmed commitment transaction.
+#[derive(Clone, Debug)]
+pub struct Closed {
+	pub chan: usize,
+	pub tx: Transaction,
+	pub txid: Txid,
+	pub conf: u32,
+	/// broadcaster (the node whose commitment transaction this is) and the other end
+	pub b: usize,
+	pub c: usize,
+	/// CSV delay on the broadcaster's own outputs
+	pub csv: u32,
+	pub to_b_sat: u64,
+	pub to_c_sat: u64,
+	pub htlcs: Vec<HtlcOut>,
+	pub anchor_vouts: Vec<u32>,
+	pub main_vouts: Vec<u32>,
+	/// when the peer had already signed a newer commitment for `b`: this is `b`'s previous, still unrevoked one
+	pub newer_signed: bool,
+	pub resolved: bool,
+}
+
+#[derive(Clone, Debug)]
+pub struct Announced {
+	pub node: usize,
+	pub value: u64,
+	pub height: u32,
+	pub kind: &'static str,
+	pub chan: Option<usize>,
+}
+
+#[derive(Clone, Debug)]
+struct LastClaim {
+	txid: Txid,
+	fee: u64,
+	weight: u64,
+	inputs: Vec<OutPoint>,
+}
+
+#[derive(Default, Clone, Debug)]
+pub struct Stats {
+	pub broadcasts: u64,
+	pub benign_conflicts: u64,
+	pub benign_stale: u64,
+	pub rbf_bumps: u64,
+	pub competing: u64,
+	pub bump_events: u64,
+	pub bump_target_raises: u64,
+	pub sweeps: u64,
+	pub sweeps_dust_only: u64,
+	pub balance_checks: u64,
+	pub timeliness_checks: u64,
+	pub late_claims: u64,
+	pub htlc_won_by_preimage: u64,
+	pub htlc_won_by_timeout: u64,
+	pub blocks: u64,
+	pub closed_by_api: bool,
+	pub closed_by_mining: bool,
+	pub closed_automatically: bool,
+}
+
+pub struct Run<'a> {
+	pub case: &'a Case,
+	pub sim: Sim,
+	cur_log: usize,
+	cur_hist: usize,
+	/// every commitment transaction a node signed for its peer: txid -> (chan, signer node, tx)
+	commits: BTreeMap<Txid, (usize, usize, CommitmentTransaction)>,
+	/// lowest commitment number signed per (chan, signer)
+	newest_signed: BTreeMap<(usize, usize), u64>,
+	/// (node, chan, payment hash) -> height at which the node's monitor of that channel was handed the preimage
+	known: BTreeMap<(usize, usize, [u8; 32]), u32>,
+	pub closed: Vec<Closed>,
+	/// first broadcaster of every transaction
+	by: BTreeMap<Txid, usize>,
+	harness_txs: BTreeSet<Txid>,
+	sweeps: BTreeMap<Txid, usize>,
+	first_seen: BTreeMap<Txid, u32>,
+	pub announced: BTreeMap<OutPoint, Announced>,
+	last_claim: BTreeMap<(usize, OutPoint), LastClaim>,
+	bump_targets: BTreeMap<[u8; 32], u32>,
+	/// transactions a node had rejected at a height (for the stale-parent rule)
+	rejected_at: BTreeMap<Txid, u32>,
+	/// a (node, outpoint) for which both ends had a transaction in the mempool
+	contested: BTreeSet<OutPoint>,
+	pub stats: Stats,
+	pub tags: Vec<&'static str>,
+	pub unfinished: bool,
+}
+
+pub fn cold_script(node: usize) -> ScriptBuf {
+	// where the harness sweeps every SpendableOutputs descriptor of `node` ("the node's keys")
+	let h = bitcoin::hashes::sha256::Hash::hash(&[0xC0, 0x7C, node as u8]);
+	ScriptBuf::new_p2wsh(&bitcoin::WScriptHash::from_byte_array(h.to_byte_array()))
+}
+
+fn fail(oracle: &str, detail: String) -> Failure {
+	Failure::new(oracle, detail)
+}
+
+fn is_p2a(s: &ScriptBuf) -> bool {
+	s.as_bytes() == [0x51, 0x02, 0x4e, 0x73]
+}
+
+impl<'a> Run<'a> {
+	pub fn new(case: &'a Case) -> Run<'a> {
+		let mut spec = case.spec.clone();
+		spec.deferred = false;
+		let mut sim = spec.build(false);
+		// plenty of confirmed wallet UTXOs: anchor claims must never fail for lack of coins (coin-selection
+		// failures are the wallet's business, not the monitor's)
+		if spec.ctype != CType::Static {
+			sim.fund_wallets(10);
+		}
+		let mut r = Run {
+			case,
+			sim,
+			cur_log: 0,
+			cur_hist: 0,
+			commits: BTreeMap::new(),
+			newest_signed: BTreeMap::new(),
+			known: BTreeMap::new(),
+			closed: vec![],
+			by: BTreeMap::new(),
+			harness_txs: BTreeSet::new(),
+			sweeps: BTreeMap::new(),
+			first_seen: BTreeMap::new(),
+			announced: BTreeMap::new(),
+			last_claim: BTreeMap::new(),
+			bump_targets: BTreeMap::new(),
+			rejected_at: BTreeMap::new(),
+			contested: BTreeSet::new(),
+			stats: Stats::default(),
+			tags: vec![],
+			unfinished: false,
+		};
+		// broadcasts during channel establishment are not part of the case
+		r.cur_log = r.sim.log.len();
+		r
+	}
+
+	fn n(&self) -> usize {
+		self.sim.w.n
+	}
+
+	fn funding_outpoint(&self, chan: usize) -> OutPoint {
+		OutPoint { txid: self.sim.chans[chan].funding_tx.compute_txid(), vout: 0 }
+	}
+
+	fn prevout(&self, op: &OutPoint) -> Option<bitcoin::TxOut> {
+		if let Some(u) = self.sim.chain.utxo.get(op) {
+			return Some(u.out.clone());
+		}
+		self.sim.chain.seen.get(&op.txid).and_then(|t| t.output.get(op.vout as usize).cloned())
+	}
+
+	fn fee_of(&self, tx: &Transaction) -> Option<u64> {
+		let mut i = 0u64;
+		for inp in tx.input.iter() {
+			i += self.prevout(&inp.previous_output)?.value.to_sat();
+		}
+		let o: u64 = tx.output.iter().map(|o| o.value.to_sat()).sum();
+		i.checked_sub(o)
+	}
+
+	fn is_wallet_script(&self, s: &ScriptBuf) -> bool {
+		(0..self.n()).any(|i| lightning::util::wallet_utils::WalletSourceSync::get_change_script(&*self.sim.w.nodes[i].wallet_source).map(|w| w == *s).unwrap_or(false))
+	}
+
+	// ---------------------------------------------------------------------------------------------
+	// history intake: signer + persister facts
+	// ---------------------------------------------------------------------------------------------
+
+	fn intake_hist(&mut self) {
+		let evs = hist_since(self.cur_hist);
+		self.cur_hist += evs.len();
+		let height = self.sim.chain.height();
+		for (_, ev) in evs {
+			match ev {
+				HEvent::SignCounterparty { node, tx, params, .. } => {
+					let Some(fo) = params.funding_outpoint else { continue };
+					let Some(chan) = self.sim.chans.iter().position(|c| c.funding_tx.compute_txid() == fo.txid) else { continue };
+					let num = tx.commitment_number();
+					let e = self.newest_signed.entry((chan, node)).or_insert(num);
+					if num < *e {
+						*e = num;
+					}
+					self.commits.insert(tx.trust().txid(), (chan, node, tx));
+				},
+				HEvent::PersistUpdate { node, chan, steps, debug, .. } => {
+					if !steps.iter().any(|s| s == "PaymentPreimage") {
+						continue;
+					}
+					let Some(ci) = self.sim.chans.iter().position(|c| c.id == chan) else { continue };
+					for p in self.sim.pays.iter() {
+						if debug.contains(&format!("{:?}", p.preimage)) {
+							self.known.entry((node, ci, p.hash.0)).or_insert(height);
+						}
+					}
+				},
+				_ => {},
+			}
+		}
+	}
+
+	// ---------------------------------------------------------------------------------------------
+	// (a) validity of everything handed to the broadcaster, (c) fee monotonicity
+	// ---------------------------------------------------------------------------------------------
+
+	fn intake_log(&mut self) -> CaseResult {
+		let entries: Vec<(u64, SEvent)> = self.sim.log[self.cur_log..].to_vec();
+		self.cur_log += entries.len();
+		// bump events of this batch, matched to the transactions that follow them
+		let mut pending_bumps: Vec<(usize, BumpTransactionEvent)> = vec![];
+		for (_, ev) in entries {
+			match ev {
+				SEvent::Broadcast { node, tx, height, verdict } => {
+					self.stats.broadcasts += 1;
+					let txid = tx.compute_txid();
+					self.by.entry(txid).or_insert(node);
+					self.first_seen.entry(txid).or_insert(height);
+					self.judge_broadcast(node, &tx, height, &verdict)?;
+					if matches!(verdict, Ok(_) | Err(Reject::MempoolConflict(_))) {
+						self.fee_monotone(node, &tx)?;
+						self.bump_tx_meets_target(node, &tx, &mut pending_bumps)?;
+					}
+				},
+				SEvent::Ldk { node, ev: Event::BumpTransaction(b) } => {
+					self.stats.bump_events += 1;
+					let (id, target) = match &b {
+						BumpTransactionEvent::ChannelClose { claim_id, package_target_feerate_sat_per_1000_weight, .. } => (claim_id.0, *package_target_feerate_sat_per_1000_weight),
+						BumpTransactionEvent::HTLCResolution { claim_id, target_feerate_sat_per_1000_weight, .. } => (claim_id.0, *target_feerate_sat_per_1000_weight),
+					};
+					// (c) the feerate a claim asks its wallet for never decreases while the claim is pending
+					if let Some(prev) = self.bump_targets.get(&id) {
+						if target < *prev {
+							return Err(fail("bump-target-decreased", format!("node {} BumpTransaction for claim {} asks for {} sat/kw after having asked for {}", node, vcore::hex(&id[..4]), target, prev)));
+						}
+						if target > *prev {
+							self.stats.bump_target_raises += 1;
+						}
+					}
+					self.bump_targets.insert(id, target);
+					pending_bumps.push((node, b));
+				},
+				SEvent::Ldk { node, ev: Event::SpendableOutputs { outputs, channel_id, .. } } => {
+					let chan = channel_id.and_then(|id| self.sim.chans.iter().position(|c| c.id == id));
+					let height = self.sim.chain.height();
+					for d in outputs.iter() {
+						let (op, value, kind) = match d {
+							SpendableOutputDescriptor::StaticOutput { outpoint, output, .. } => (outpoint.into_bitcoin_outpoint(), output.value.to_sat(), "static"),
+							SpendableOutputDescriptor::DelayedPaymentOutput(x) => (x.outpoint.into_bitcoin_outpoint(), x.output.value.to_sat(), "delayed"),
+							SpendableOutputDescriptor::StaticPaymentOutput(x) => (x.outpoint.into_bitcoin_outpoint(), x.output.value.to_sat(), "static-payment"),
+						};
+						// (d) no double counting: an output is announced once, to one node
+						if let Some(prev) = self.announced.get(&op) {
+							return Err(fail("descriptor-announced-twice", format!("output {} announced as spendable to node {} at height {} and again to node {} at height {}", op, prev.node, prev.height, node, height)));
+						}
+						self.announced.insert(op, Announced { node, value, height, kind, chan });
+					}
+				},
+				_ => {},
+			}
+		}
+		Ok(())
+	}
+
+	/// (a) DESIGN C07: a transaction handed to the broadcaster must be valid for the next block. Benign
+	/// verdicts: `Duplicate` (rebroadcast), `MempoolConflict` (RBF of an own claim / race with the peer's
+	/// claim: which one confirms is the miner's choice), and *stale* spends that lost to a transaction
+	/// confirmed in the very block the node is processing (the claim was generated before the node could know).
+	fn judge_broadcast(&mut self, node: usize, tx: &Transaction, height: u32, verdict: &Result<u64, Reject>) -> CaseResult {
+		let txid = tx.compute_txid();
+		let describe = |r: &Run| format!("node {} broadcast {} at height {} ({} in / {} out, locktime {}, inputs {:?}): {:?}", node, txid, height, tx.input.len(), tx.output.len(), tx.lock_time, tx.input.iter().map(|i| i.previous_output).collect::<Vec<_>>(), verdict.as_ref().err().map(|e| format!("{:?}", e)).unwrap_or_default()) + &r.tx_context(tx);
+		match verdict {
+			Ok(_) | Err(Reject::Duplicate) => Ok(()),
+			Err(Reject::MempoolConflict(_)) => {
+				self.stats.benign_conflicts += 1;
+				Ok(())
+			},
+			Err(Reject::AlreadySpent(_, by)) => {
+				let conf = self.sim.chain.confirmed.get(by).map(|(_, h)| *h);
+				if conf == Some(height) {
+					self.stats.benign_stale += 1;
+					self.rejected_at.insert(txid, height);
+					Ok(())
+				} else {
+					Err(fail("broadcast-spends-spent-output", describe(self)).with_key("broadcast/already-spent"))
+				}
+			},
+			Err(Reject::MissingInput(op)) => {
+				// benign only as the child of a transaction that itself just became stale
+				let parent_rejected_now = self.rejected_at.get(&op.txid) == Some(&height);
+				let parent_conflicted_now = self.sim.chain.seen.get(&op.txid).map(|p| !self.sim.chain.confirmed.contains_key(&op.txid) && p.input.iter().any(|i| self.sim.chain.spent_by.get(&i.previous_output).and_then(|s| self.sim.chain.confirmed.get(s)).map(|(_, h)| *h == height).unwrap_or(false))).unwrap_or(false);
+				if parent_rejected_now || parent_conflicted_now {
+					self.stats.benign_stale += 1;
+					self.rejected_at.insert(txid, height);
+					Ok(())
+				} else {
+					Err(fail("broadcast-spends-unknown-output", describe(self)).with_key("broadcast/missing-input"))
+				}
+			},
+			Err(Reject::Script(_)) => Err(fail("broadcast-script-invalid", describe(self)).with_key("broadcast/script")),
+			Err(Reject::NonFinal { .. }) => Err(fail("broadcast-non-final", describe(self)).with_key("broadcast/non-final")),
+			Err(Reject::CsvImmature { .. }) => Err(fail("broadcast-csv-immature", describe(self)).with_key("broadcast/csv")),
+			Err(Reject::NegativeFee { .. }) => Err(fail("broadcast-negative-fee", describe(self)).with_key("broadcast/negative-fee")),
+		}
+	}
+
+	fn tx_context(&self, tx: &Transaction) -> String {
+		let mut s = String::new();
+		for i in tx.input.iter() {
+			if let Some(cl) = self.closed.iter().find(|c| c.txid == i.previous_output.txid) {
+				s.push_str(&format!(" [spends output {} of the confirmed commitment of node {} (chan {}, conf {})]", i.previous_output.vout, cl.b, cl.chan, cl.conf));
+			}
+		}
+		s
+	}
+
+	/// (c) while an output is unspent, every re-issue of this node's claim of it pays at least the feerate
+	/// (and, for the same input set, the absolute fee) of the previous one; 2 % tolerance for signature sizes.
+	fn fee_monotone(&mut self, node: usize, tx: &Transaction) -> CaseResult {
+		let txid = tx.compute_txid();
+		if self.sweeps.contains_key(&txid) {
+			return Ok(());
+		}
+		let Some(fee) = self.fee_of(tx) else { return Ok(()) };
+		let weight = tx.weight().to_wu();
+		let mut inputs: Vec<OutPoint> = tx.input.iter().map(|i| i.previous_output).collect();
+		inputs.sort();
+		for inp in tx.input.iter() {
+			let op = inp.previous_output;
+			// wallet coins are not claims
+			if self.prevout(&op).map(|o| self.is_wallet_script(&o.script_pubkey)).unwrap_or(false) {
+				continue;
+			}
+			// the funding output is spent by the pre-signed commitment only
+			if self.sim.chans.iter().any(|c| c.funding_tx.compute_txid() == op.txid) {
+				continue;
+			}
+			if let Some(prev) = self.last_claim.get(&(node, op)) {
+				if prev.txid != txid {
+					self.stats.rbf_bumps += 1;
+					// feerate comparison by cross-multiplication: fee/weight >= 0.98 * prev.fee/prev.weight
+					let lhs = fee as u128 * prev.weight as u128 * 100;
+					let rhs = prev.fee as u128 * weight as u128 * 98;
+					if lhs < rhs {
+						return Err(fail(
+							"claim-feerate-decreased",
+							format!("node {} re-issued its claim of {} as {} paying {} sat / {} wu after {} paying {} sat / {} wu", node, op, txid, fee, weight, prev.txid, prev.fee, prev.weight),
+						));
+					}
+					if prev.inputs == inputs && (fee as u128) * 100 < (prev.fee as u128) * 98 {
+						return Err(fail("claim-fee-decreased", format!("node {} re-issued its claim of {:?} as {} paying {} sat after {} paying {} sat", node, inputs, txid, fee, prev.txid, prev.fee)));
+					}
+				}
+			}
+			self.last_claim.insert((node, op), LastClaim { txid, fee, weight, inputs: inputs.clone() });
+			// both ends now have a transaction for this output
+			if (0..self.n()).any(|o| o != node && self.last_claim.contains_key(&(o, op))) {
+				if self.contested.insert(op) {
+					self.stats.competing += 1;
+				}
+			}
+		}
+		Ok(())
+	}
+
+	/// (c) a transaction built for a `BumpTransaction` event pays at least the feerate the event asked for
+	/// (for a commitment bump: the parent + child package does).
+	fn bump_tx_meets_target(&mut self, node: usize, tx: &Transaction, pending: &mut Vec<(usize, BumpTransactionEvent)>) -> CaseResult {
+		let Some(fee) = self.fee_of(tx) else { return Ok(()) };
+		let weight = tx.weight().to_wu();
+		let mut done = None;
+		for (k, (n, b)) in pending.iter().enumerate() {
+			if *n != node {
+				continue;
+			}
+			match b {
+				BumpTransactionEvent::HTLCResolution { htlc_descriptors, target_feerate_sat_per_1000_weight, .. } => {
+					if htlc_descriptors.iter().any(|d| tx.input.iter().any(|i| i.previous_output == d.outpoint())) {
+						if (fee as u128) * 1000 * 100 < (*target_feerate_sat_per_1000_weight as u128) * weight as u128 * 98 {
+							return Err(fail("bump-below-target", format!("node {} HTLC transaction {} pays {} sat / {} wu, below the {} sat/kw the monitor asked for", node, tx.compute_txid(), fee, weight, target_feerate_sat_per_1000_weight)));
+						}
+						done = Some(k);
+						break;
+					}
+				},
+				BumpTransactionEvent::ChannelClose { anchor_descriptor, package_target_feerate_sat_per_1000_weight, commitment_tx, commitment_tx_fee_satoshis, .. } => {
+					if tx.input.iter().any(|i| i.previous_output == anchor_descriptor.outpoint.into_bitcoin_outpoint()) {
+						let pfee = fee + *commitment_tx_fee_satoshis;
+						let pw = weight + commitment_tx.weight().to_wu();
+						if (pfee as u128) * 1000 * 100 < (*package_target_feerate_sat_per_1000_weight as u128) * pw as u128 * 98 {
+							return Err(fail("bump-below-target", format!("node {} commitment package (child {}) pays {} sat / {} wu, below the {} sat/kw the monitor asked for", node, tx.compute_txid(), pfee, pw, package_target_feerate_sat_per_1000_weight)));
+						}
+						done = Some(k);
+						break;
+					}
+				},
+			}
+		}
+		if let Some(k) = done {
+			pending.remove(k);
+		}
+		Ok(())
+	}
+
+	// ---------------------------------------------------------------------------------------------
+	// closure detection and decoding of the confirmed commitment
+	// ---------------------------------------------------------------------------------------------
+
+	fn detect_closures(&mut self) {
+		for chan in 0..self.sim.chans.len() {
+			if self.closed.iter().any(|c| c.chan == chan) {
+				continue;
+			}
+			let fo = self.funding_outpoint(chan);
+			let Some(spender) = self.sim.chain.spent_by.get(&fo).cloned() else { continue };
+			let Some((tx, conf)) = self.sim.chain.confirmed.get(&spender).cloned() else { continue };
+			let Some((_, signer, ctx)) = self.commits.get(&spender).cloned() else { continue };
+			let info = self.sim.chans[chan].clone();
+			let b = if signer == info.a { info.b } else { info.a };
+			let c = signer;
+			// to_self_delay in open_channel / accept_channel is what the sender imposes on its *peer*
+			let csv = if b == info.a { info.accept.common_fields.to_self_delay } else { info.open.common_fields.to_self_delay } as u32;
+			let mut htlcs = vec![];
+			for h in ctx.nondust_htlcs().iter() {
+				let Some(vout) = h.transaction_output_index else { continue };
+				let (offerer, receiver) = if h.offered { (b, c) } else { (c, b) };
+				let pay = self.sim.pays.iter().position(|p| p.hash == h.payment_hash);
+				htlcs.push(HtlcOut { vout, offerer, receiver, amount_msat: h.amount_msat, cltv: h.cltv_expiry, hash: h.payment_hash.0, pay });
+			}
+			let zero_fee = self.case.spec.ctype == CType::ZeroFee;
+			let anchors = self.case.spec.ctype == CType::Anchors;
+			let mut anchor_vouts = vec![];
+			let mut main_vouts = vec![];
+			for (i, o) in tx.output.iter().enumerate() {
+				let i = i as u32;
+				if htlcs.iter().any(|h| h.vout == i) {
+					continue;
+				}
+				// BOLT-3: anchor outputs are 330 sat (below every dust limit, so nothing else has that value);
+				// zero-fee commitments carry one shared P2A output instead
+				if (anchors && o.value.to_sat() == 330) || (zero_fee && is_p2a(&o.script_pubkey)) {
+					anchor_vouts.push(i);
+				} else {
+					main_vouts.push(i);
+				}
+			}
+			let newer_signed = self.newest_signed.get(&(chan, c)).map(|n| *n < ctx.commitment_number()).unwrap_or(false);
+			self.closed.push(Closed {
+				chan,
+				tx,
+				txid: spender,
+				conf,
+				b,
+				c,
+				csv,
+				to_b_sat: ctx.to_broadcaster_value_sat(),
+				to_c_sat: ctx.to_countersignatory_value_sat(),
+				htlcs,
+				anchor_vouts,
+				main_vouts,
+				newer_signed,
+				resolved: false,
+			});
+		}
+	}
+
+	/// confirmed spender of an output: (transaction, height, broadcasting node if it was a node's transaction)
+	fn spender(&self, op: &OutPoint) -> Option<(Transaction, u32, Option<usize>)> {
+		let s = self.sim.chain.spent_by.get(op)?;
+		let (tx, h) = self.sim.chain.confirmed.get(s)?;
+		Some((tx.clone(), *h, self.by.get(s).cloned()))
+	}
+
+	fn balances(&self, node: usize, chan: usize) -> Option<Vec<Balance>> {
+		let id = self.sim.chans[chan].id;
+		self.sim.w.nodes[node].chain_monitor.chain_monitor.get_monitor(id).ok().map(|m| m.get_claimable_balances())
+	}
+
+	// ---------------------------------------------------------------------------------------------
+	// (d) claimable balances equal what is still owed, output by output
+	// ---------------------------------------------------------------------------------------------
+
+	fn check_balances(&mut self) -> CaseResult {
+		let height = self.sim.chain.height();
+		for cl in self.closed.clone().iter() {
+			for node in [cl.b, cl.c] {
+				let Some(actual) = self.balances(node, cl.chan) else { continue };
+				self.stats.balance_checks += 1;
+				let slots = self.expected_balances(cl, node, height);
+				let mut used = vec![false; slots.len()];
+				for bal in actual.iter() {
+					let mut hit = None;
+					for (k, s) in slots.iter().enumerate() {
+						if !used[k] && s.shapes.iter().any(|sh| sh.matches(bal)) {
+							hit = Some(k);
+							break;
+						}
+					}
+					match hit {
+						Some(k) => used[k] = true,
+						None => {
+							return Err(fail(
+								"balance-unexpected",
+								format!("node {} chan {} at height {} (commitment of node {} confirmed at {}): reports {:?} which matches nothing it is still owed.\n expected: {}\n reported: {:?}", node, cl.chan, height, cl.b, cl.conf, bal, render_slots(&slots), actual),
+							)
+							.with_key(format!("balance-unexpected/{}", balance_kind(bal))));
+						},
+					}
+				}
+				for (k, s) in slots.iter().enumerate() {
+					if s.required && !used[k] {
+						return Err(fail(
+							"balance-missing",
+							format!("node {} chan {} at height {} (commitment of node {} confirmed at {}): nothing reported for {}.\n expected: {}\n reported: {:?}", node, cl.chan, height, cl.b, cl.conf, s.what, render_slots(&slots), actual),
+						)
+						.with_key(format!("balance-missing/{}", s.kind)));
+					}
+				}
+			}
+		}
+		Ok(())
+	}
+
+	fn expected_balances(&self, cl: &Closed, node: usize, height: u32) -> Vec<Slot> {
+		let mut slots = vec![];
+		let ard = ANTI_REORG_DELAY;
+		// the node's own balance output
+		let (main_sat, main_th, src) = if node == cl.b { (cl.to_b_sat, cl.conf + ard.max(cl.csv) - 1, BalanceSource::HolderForceClosed) } else { (cl.to_c_sat, cl.conf + ard - 1, BalanceSource::CounterpartyForceClosed) };
+		if main_sat > 0 {
+			let announced = self.announced.iter().any(|(op, a)| op.txid == cl.txid && a.node == node && cl.main_vouts.contains(&op.vout));
+			if !announced {
+				slots.push(Slot { required: true, kind: "main", what: format!("its own balance output of {} sat (spendable-event height {})", main_sat, main_th), shapes: vec![Shape::Awaiting { amt: main_sat, height: Some(main_th), src: Some(src) }] });
+			}
+		}
+		for h in cl.htlcs.iter() {
+			let op = OutPoint { txid: cl.txid, vout: h.vout };
+			let is_offerer = h.offerer == node;
+			let knows = self.known.contains_key(&(node, cl.chan, h.hash));
+			let unresolved_shape = if is_offerer {
+				Shape::MaybeTimeout { amt: h.sat(), height: h.cltv, hash: h.hash, outbound_payment: h.pay.map(|p| self.sim.pays[p].from == node) }
+			} else if knows {
+				Shape::Contentious { amt: h.sat(), timeout: h.cltv, hash: h.hash }
+			} else {
+				Shape::MaybePreimage { amt: h.sat(), expiry: h.cltv, hash: h.hash }
+			};
+			match self.spender(&op) {
+				None => slots.push(Slot { required: true, kind: if is_offerer { "htlc-offered" } else if knows { "htlc-received-preimage-known" } else { "htlc-received" }, what: format!("the unspent HTLC output {} ({} sat, expiry {}, {})", h.vout, h.sat(), h.cltv, if is_offerer { "offered by it" } else if knows { "received, preimage known" } else { "received, preimage unknown" }), shapes: vec![unresolved_shape] }),
+				Some((stx, x, by)) => {
+					if by == Some(node) {
+						// own claim confirmed: owed until the output it created is announced as spendable
+						let (dop, th) = if node == cl.b {
+							let idx = stx.input.iter().position(|i| i.previous_output == op).unwrap_or(0) as u32;
+							(OutPoint { txid: stx.compute_txid(), vout: idx }, x + ard.max(cl.csv) - 1)
+						} else {
+							(OutPoint { txid: stx.compute_txid(), vout: 0 }, x + ard - 1)
+						};
+						if !self.announced.contains_key(&dop) {
+							slots.push(Slot { required: true, kind: "htlc-claimed-awaiting", what: format!("the HTLC output {} ({} sat) it claimed at height {} (spendable-event height {})", h.vout, h.sat(), x, th), shapes: vec![Shape::Awaiting { amt: h.sat(), height: Some(th), src: Some(BalanceSource::Htlc) }] });
+						}
+					} else if height < x + ard - 1 {
+						// lost to the peer; the documentation lets the old balance linger until the peer's spend is
+						// ANTI_REORG_DELAY deep
+						slots.push(Slot { required: false, kind: "htlc-lost-grace", what: String::new(), shapes: vec![unresolved_shape] });
+					}
+				},
+			}
+		}
+		slots
+	}
+
+	// ---------------------------------------------------------------------------------------------
+	// (b) timeliness: claims exist as soon as they are possible
+	// ---------------------------------------------------------------------------------------------
+
+	fn node_has_mempool_spend(&self, node: usize, op: &OutPoint) -> bool {
+		self.sim.chain.mempool.iter().any(|t| t.input.iter().any(|i| i.previous_output == *op) && self.by.get(&t.compute_txid()) == Some(&node))
+	}
+
+	fn check_timeliness(&mut self) -> CaseResult {
+		let height = self.sim.chain.height();
+		for cl in self.closed.iter() {
+			for h in cl.htlcs.iter() {
+				let op = OutPoint { txid: cl.txid, vout: h.vout };
+				if !self.sim.chain.is_unspent(&op) {
+					continue;
+				}
+				self.stats.timeliness_checks += 1;
+				// inbound HTLC whose preimage the monitor was given: a valid claim must be out
+				if self.known.contains_key(&(h.receiver, cl.chan, h.hash)) && !self.node_has_mempool_spend(h.receiver, &op) {
+					return Err(fail(
+						"inbound-htlc-not-claimed",
+						format!("node {} knows the preimage of the unspent HTLC output {}:{} ({} sat, expiry {}) on the commitment of node {} confirmed at {}, but at height {} it has no valid claim of it in the mempool", h.receiver, cl.txid, h.vout, h.sat(), h.cltv, cl.b, cl.conf, height),
+					)
+					.with_key(format!("inbound-htlc-not-claimed/{}", if h.receiver == cl.b { "holder" } else { "counterparty" })));
+				}
+				// outbound HTLC: from its expiry on (a transaction with nLockTime = expiry is final in block expiry+1)
+				if height >= h.cltv && !self.node_has_mempool_spend(h.offerer, &op) {
+					return Err(fail(
+						"outbound-htlc-not-timed-out",
+						format!("node {} offered the unspent HTLC output {}:{} ({} sat) which expired at {}, commitment of node {} confirmed at {}; at height {} it has no valid timeout claim in the mempool", h.offerer, cl.txid, h.vout, h.sat(), h.cltv, cl.b, cl.conf, height),
+					)
+					.with_key(format!("outbound-htlc-not-timed-out/{}", if h.offerer == cl.b { "holder" } else { "counterparty" })));
+				}
+			}
+		}
+		Ok(())
+	}
+
+	// ---------------------------------------------------------------------------------------------
+	// (e) every SpendableOutputs descriptor is spendable at the moment it is announced
+	// ---------------------------------------------------------------------------------------------
+
+	fn sweep(&mut self, node: usize, outputs: &[SpendableOutputDescriptor]) -> CaseResult {
+		let secp = Secp256k1::new();
+		let descs: Vec<&SpendableOutputDescriptor> = outputs.iter().collect();
+		let height = self.sim.chain.height();
+		let res = self.sim.w.nodes[node].keys_manager.backing.spend_spendable_outputs(&descs, vec![], cold_script(node), 253, None, &secp);
+		let tx = match res {
+			Ok(tx) => tx,
+			Err(()) => {
+				return Err(fail("descriptor-unspendable", format!("node {}: spend_spendable_outputs failed at height {} for {:?}", node, height, outputs)));
+			},
+		};
+		// (d) the descriptor states the real output
+		for d in outputs.iter() {
+			let (op, out) = match d {
+				SpendableOutputDescriptor::StaticOutput { outpoint, output, .. } => (outpoint.into_bitcoin_outpoint(), output.clone()),
+				SpendableOutputDescriptor::DelayedPaymentOutput(x) => (x.outpoint.into_bitcoin_outpoint(), x.output.clone()),
+				SpendableOutputDescriptor::StaticPaymentOutput(x) => (x.outpoint.into_bitcoin_outpoint(), x.output.clone()),
+			};
+			match self.sim.chain.utxo.get(&op) {
+				Some(u) if u.out == out => {},
+				other => {
+					return Err(fail("descriptor-wrong-output", format!("node {}: descriptor for {} states {:?} but the chain has {:?}", node, op, out, other.map(|u| &u.out))));
+				},
+			}
+		}
+		match self.sim.chain.check_tx(&tx, height + 1, &HashMap::new(), false) {
+			Ok(_) => {},
+			Err(e) => {
+				return Err(fail(
+					"descriptor-sweep-invalid",
+					format!("node {}: the transaction spend_spendable_outputs built at height {} for {:?} is not valid in the next block: {:?}", node, height, outputs.iter().map(describe_desc).collect::<Vec<_>>(), e),
+				)
+				.with_key(format!("descriptor-sweep-invalid/{}", reject_kind(&e))));
+			},
+		}
+		self.stats.sweeps += 1;
+		if tx.output.is_empty() {
+			// everything went to fees (a lone dust-sized output): valid scripts, nothing left to own
+			self.stats.sweeps_dust_only += 1;
+		}
+		let txid = tx.compute_txid();
+		self.sweeps.insert(txid, node);
+		self.harness_txs.insert(txid);
+		self.first_seen.insert(txid, height);
+		let _ = self.sim.chain.broadcast(&tx);
+		Ok(())
+	}
+
+	// ---------------------------------------------------------------------------------------------
+	// driving
+	// ---------------------------------------------------------------------------------------------
+
+	/// take in everything recorded since the last call and evaluate the per-step oracles
+	pub fn observe(&mut self) -> CaseResult {
+		self.sim.drain_all();
+		self.intake_hist();
+		self.intake_log()?;
+		self.detect_closures();
+		Ok(())
+	}
+
+	fn process_all_events(&mut self, pump: bool) -> CaseResult {
+		for _ in 0..6 {
+			let mut progress = false;
+			for i in 0..self.n() {
+				let evs = self.sim.process_events(i);
+				if !evs.is_empty() {
+					progress = true;
+				}
+				// record first (so that the announcement is known), then sweep
+				self.observe()?;
+				for ev in evs.iter() {
+					if let Event::SpendableOutputs { outputs, .. } = ev {
+						self.sweep(i, outputs)?;
+					}
+				}
+			}
+			if pump {
+				let live: Vec<(usize, usize)> = self.sim.links.iter().filter(|(k, q)| !q.is_empty() && self.sim.is_connected(k.0, k.1)).map(|(k, _)| *k).collect();
+				for (f, t) in live {
+					while self.sim.queued(f, t) > 0 && self.sim.is_connected(f, t) {
+						self.sim.deliver(f, t, 1);
+						progress = true;
+					}
+				}
+				for i in 0..self.n() {
+					if self.sim.w.nodes[i].node.needs_pending_htlc_processing() {
+						self.sim.process_forwards(i);
+						progress = true;
+					}
+				}
+			}
+			if !progress {
+				break;
+			}
+		}
+		self.observe()
+	}
+
+	fn prune_orphans(&mut self) {
+		loop {
+			let pool: Vec<Transaction> = self.sim.chain.mempool.clone();
+			let ids: BTreeSet<Txid> = pool.iter().map(|t| t.compute_txid()).collect();
+			let before = pool.len();
+			let chain = &self.sim.chain;
+			let keep: Vec<Transaction> = pool.into_iter().filter(|t| t.input.iter().all(|i| chain.utxo.contains_key(&i.previous_output) || ids.contains(&i.previous_output.txid))).collect();
+			let after = keep.len();
+			self.sim.chain.mempool = keep;
+			if after == before {
+				break;
+			}
+		}
+	}
+
+	fn select(&self, incl: &Incl) -> Vec<Transaction> {
+		let h = self.sim.chain.height();
+		let pool = self.sim.chain.mempool.clone();
+		let overdue = |t: &Transaction| h.saturating_sub(*self.first_seen.get(&t.compute_txid()).unwrap_or(&h)) >= self.case.max_delay as u32;
+		match incl {
+			Incl::All => pool,
+			Incl::Reverse => pool.into_iter().rev().collect(),
+			Incl::Overdue => pool.into_iter().filter(|t| overdue(t)).collect(),
+			Incl::Pick(p) => {
+				let k = pick(*p, pool.len());
+				pool.iter().enumerate().filter(|(i, t)| *i == k || overdue(t)).map(|(_, t)| t.clone()).collect()
+			},
+			Incl::Prefer(n) => {
+				let n = pick(*n, self.n());
+				let (mut a, b): (Vec<Transaction>, Vec<Transaction>) = pool.into_iter().partition(|t| self.by.get(&t.compute_txid()) == Some(&n));
+				a.extend(b);
+				a
+			},
+		}
+	}
+
+	pub fn block(&mut self, incl: &Incl, pump: bool) -> CaseResult {
+		self.prune_orphans();
+		let txs = self.select(incl);
+		self.sim.mine_block(txs);
+		self.stats.blocks += 1;
+		self.observe()?;
+		self.process_all_events(pump)?;
+		self.prune_orphans();
+		self.check_balances()?;
+		self.check_timeliness()?;
+		self.sim.trim();
+		Ok(())
+	}
+
+	fn set_sweep_feerate(&mut self, node: usize, rate: u32) {
+		let fe = self.sim.w.nodes[node].fee_estimator;
+		let mut ov = fe.target_override.lock().unwrap();
+		ov.insert(ConfirmationTarget::UrgentOnChainSweep, rate);
+		ov.insert(ConfirmationTarget::OutputSpendingFee, rate);
+		let base = *fe.sat_per_kw.lock().unwrap();
+		let cur = ov.get(&ConfirmationTarget::MaximumFeeEstimate).cloned().unwrap_or(base);
+		ov.insert(ConfirmationTarget::MaximumFeeEstimate, cur.max(rate));
+	}
+
+	pub fn apply_pre(&mut self, p: &Pre) -> CaseResult {
+		let n = self.n();
+		match p {
+			Pre::Claim { pay } => {
+				let cands: Vec<usize> = self.sim.pays.iter().filter(|p| p.state == PayState::Claimable).map(|p| p.idx).collect();
+				if !cands.is_empty() {
+					self.sim.claim(cands[pick(*pay, cands.len())]);
+					if !self.closed.is_empty() {
+						self.stats.late_claims += 1;
+					}
+				}
+			},
+			Pre::Fee { node, rate } => self.set_sweep_feerate(pick(*node, n), *rate),
+			Pre::Rebroadcast { node } => {
+				let i = pick(*node, n);
+				self.sim.w.nodes[i].chain_monitor.chain_monitor.rebroadcast_pending_claims();
+				self.sim.drain(i);
+			},
+			Pre::Timer { node } => self.sim.timer_tick(pick(*node, n)),
+			Pre::Style { node, style } => {
+				*self.sim.w.nodes[pick(*node, n)].connect_style.borrow_mut() = connect_style_of(*style);
+			},
+		}
+		self.observe()
+	}
+
+	pub fn close(&mut self) -> CaseResult {
+		let ci = pick(self.case.chan, self.sim.chans.len());
+		let info = self.sim.chans[ci].clone();
+		let (who_funder, cut) = match &self.case.close {
+			Close::Force { by_funder, cut_link } => (*by_funder, *cut_link),
+			Close::MineHolder { of_funder, cut_link } => (*of_funder, *cut_link),
+		};
+		let (me, peer) = if who_funder { (info.a, info.b) } else { (info.b, info.a) };
+		if self.sim.chan_details(me, ci).is_none() {
+			self.tags.push("close-skipped");
+			return self.observe();
+		}
+		if cut {
+			self.sim.disconnect(me, peer);
+		}
+		match &self.case.close {
+			Close::Force { .. } => {
+				let peer_id = self.sim.w.node_id(peer);
+				let r = self.sim.w.nodes[me].node.force_close_broadcasting_latest_txn(&info.id, &peer_id, "harness force close".to_string());
+				self.sim.rec(SEvent::Api { node: me, what: format!("force_close chan {}", ci), ok: r.is_ok(), detail: format!("{:?}", r) });
+				self.stats.closed_by_api = true;
+				self.tags.push("force-close");
+				self.observe()
+			},
+			Close::MineHolder { .. } => {
+				let txs = match self.sim.w.nodes[me].chain_monitor.chain_monitor.get_monitor(info.id) {
+					Ok(m) => m.unsafe_get_latest_holder_commitment_txn(&self.sim.w.nodes[me].logger),
+					Err(()) => vec![],
+				};
+				let Some(tx) = txs.first().cloned() else {
+					self.tags.push("close-skipped");
+					return Ok(());
+				};
+				self.harness_txs.insert(tx.compute_txid());
+				self.stats.closed_by_mining = true;
+				self.tags.push("mined-holder-commitment");
+				self.prune_orphans();
+				self.sim.mine_block(vec![tx]);
+				self.stats.blocks += 1;
+				self.observe()?;
+				self.process_all_events(true)?;
+				self.check_balances()?;
+				self.check_timeliness()
+			},
+		}
+	}
+
+	/// everything that can still happen on chain for the closed channels has happened
+	fn all_resolved(&self) -> bool {
+		if !self.sim.chain.mempool.is_empty() {
+			return false;
+		}
+		// a commitment was broadcast but nothing confirmed yet
+		for (chan, c) in self.sim.chans.iter().enumerate() {
+			let gone = [c.a, c.b].iter().any(|n| self.sim.chan_details(*n, chan).is_none());
+			if gone && !self.closed.iter().any(|cl| cl.chan == chan) {
+				return false;
+			}
+		}
+		for cl in self.closed.iter() {
+			for node in [cl.b, cl.c] {
+				if self.balances(node, cl.chan).map(|b| !b.is_empty()).unwrap_or(false) {
+					return false;
+				}
+			}
+			if cl.htlcs.iter().any(|h| self.sim.chain.is_unspent(&OutPoint { txid: cl.txid, vout: h.vout })) {
+				return false;
+			}
+		}
+		true
+	}
+
+	/// deterministic tail: confirm everything as it appears until all closed channels are resolved
+	pub fn tail(&mut self, max_blocks: u32) -> CaseResult {
+		let incl = if self.case.tail_reverse { Incl::Reverse } else { Incl::All };
+		let mut quiet = 0;
+		for _ in 0..max_blocks {
+			if self.all_resolved() {
+				quiet += 1;
+				if quiet >= 2 {
+					return Ok(());
+				}
+			} else {
+				quiet = 0;
+			}
+			self.block(&incl, true)?;
+		}
+		self.unfinished = !self.all_resolved();
+		Ok(())
+	}
+
+	// ---------------------------------------------------------------------------------------------
+	// end of case: (b) completeness, (d)/(e) conservation
+	// ---------------------------------------------------------------------------------------------
+
+	pub fn final_checks(&mut self) -> CaseResult {
+		let ard = ANTI_REORG_DELAY;
+		for cl in self.closed.clone().iter() {
+			// balances drained to nothing
+			for node in [cl.b, cl.c] {
+				if let Some(b) = self.balances(node, cl.chan) {
+					if !b.is_empty() {
+						return Err(fail("balances-not-drained", format!("node {} chan {}: everything is resolved on chain but it still reports {:?}", node, cl.chan, b)));
+					}
+				}
+			}
+			// main outputs: announced to their owner with the right kind and value, at the right height
+			let mut want: Vec<(usize, u64, &str, u32)> = vec![];
+			if cl.to_b_sat > 0 {
+				want.push((cl.b, cl.to_b_sat, "delayed", cl.conf + ard.max(cl.csv) - 1));
+			}
+			if cl.to_c_sat > 0 {
+				want.push((cl.c, cl.to_c_sat, "static", cl.conf + ard - 1));
+			}
+			let mut have: Vec<(OutPoint, Announced)> = self.announced.iter().filter(|(op, _)| op.txid == cl.txid).map(|(o, a)| (*o, a.clone())).collect();
+			for (node, sat, kind, th) in want {
+				let pos = have.iter().position(|(op, a)| a.node == node && a.value == sat && a.kind.starts_with(kind) && cl.main_vouts.contains(&op.vout));
+				match pos {
+					Some(p) => {
+						let (op, a) = have.remove(p);
+						if a.height != th {
+							return Err(fail("spendable-event-height", format!("node {} chan {}: balance output {} announced at height {}, expected {} (commitment confirmed at {}, csv {})", node, cl.chan, op, a.height, th, cl.conf, cl.csv)));
+						}
+					},
+					None => {
+						return Err(fail("balance-output-not-announced", format!("node {} chan {}: its {} sat balance output of the confirmed commitment {} was never announced as spendable ({}); announcements on that transaction: {:?}", node, cl.chan, sat, cl.txid, kind, self.announced.iter().filter(|(op, _)| op.txid == cl.txid).collect::<Vec<_>>())));
+					},
+				}
+			}
+			if let Some((op, a)) = have.first() {
+				return Err(fail("unexpected-announcement", format!("chan {}: output {} of the commitment was announced to node {} as {} ({} sat) but is nobody's balance output", cl.chan, op, a.node, a.kind, a.value)));
+			}
+			// HTLC outputs: spent by a party entitled to, and the proceeds announced to that party
+			for h in cl.htlcs.iter() {
+				let op = OutPoint { txid: cl.txid, vout: h.vout };
+				let Some((stx, x, by)) = self.spender(&op) else {
+					return Err(fail("htlc-output-unclaimed", format!("chan {}: HTLC output {} ({} sat, expiry {}) was never claimed by anyone", cl.chan, op, h.sat(), h.cltv)));
+				};
+				let Some(by) = by else { continue };
+				let known_at = self.known.get(&(h.receiver, cl.chan, h.hash)).cloned();
+				if by == h.offerer {
+					self.stats.htlc_won_by_timeout += 1;
+					// the receiver lost it: legitimate unless it knew the preimage early enough for its claim to
+					// confirm (within the case's confirmation delay) before the timeout became final
+					if let Some(k) = known_at {
+						let ready = k.max(cl.conf);
+						if ready + self.case.max_delay as u32 + 1 <= h.cltv {
+							return Err(fail(
+								"inbound-htlc-lost",
+								format!("chan {}: node {} knew the preimage of HTLC output {} ({} sat, expiry {}) from height {} (commitment confirmed at {}), claims confirm within {} blocks, yet node {} timed it out at height {}", cl.chan, h.receiver, op, h.sat(), h.cltv, k, cl.conf, self.case.max_delay, h.offerer, x),
+							));
+						}
+					}
+				} else if by == h.receiver {
+					self.stats.htlc_won_by_preimage += 1;
+				}
+				let (dop, th) = if by == cl.b {
+					let idx = stx.input.iter().position(|i| i.previous_output == op).unwrap_or(0) as u32;
+					(OutPoint { txid: stx.compute_txid(), vout: idx }, x + ard.max(cl.csv) - 1)
+				} else {
+					(OutPoint { txid: stx.compute_txid(), vout: 0 }, x + ard - 1)
+				};
+				match self.announced.get(&dop) {
+					Some(a) if a.node == by => {
+						if a.height != th {
+							return Err(fail("spendable-event-height", format!("node {} chan {}: proceeds {} of HTLC {} announced at height {}, expected {} (claim confirmed at {}, csv {})", by, cl.chan, dop, op, a.height, th, x, cl.csv)));
+						}
+					},
+					other => {
+						return Err(fail("htlc-proceeds-not-announced", format!("chan {}: node {} claimed HTLC output {} with {} at height {} but output {} was not announced to it as spendable ({:?})", cl.chan, by, op, stx.compute_txid(), x, dop, other)));
+					},
+				}
+			}
+			self.conservation(cl)?;
+		}
+		Ok(())
+	}
+
+	/// Walk every confirmed transaction descending from the funding output. Each satoshi of the channel ends
+	/// in a harness sweep to one node's keys, in a miner fee (or a wallet via an anchor spend), or in an
+	/// unswept anchor — and every output not yet swept is an anchor.
+	fn conservation(&mut self, cl: &Closed) -> CaseResult {
+		let value = self.sim.chans[cl.chan].value_sat;
+		let mut tracked: Vec<OutPoint> = (0..cl.tx.output.len() as u32).map(|v| OutPoint { txid: cl.txid, vout: v }).collect();
+		let commit_out: u64 = cl.tx.output.iter().map(|o| o.value.to_sat()).sum();
+		let mut fees = value - commit_out;
+		let mut to_node = vec![0u64; self.n()];
+		let mut gross = vec![0u64; self.n()];
+		let mut unswept_anchors = 0u64;
+		let mut seen_tx: BTreeSet<Txid> = BTreeSet::new();
+		while let Some(op) = tracked.pop() {
+			let val = self.prevout(&op).map(|o| o.value.to_sat()).unwrap_or(0);
+			match self.sim.chain.spent_by.get(&op).cloned() {
+				None => {
+					if op.txid == cl.txid && cl.anchor_vouts.contains(&op.vout) {
+						unswept_anchors += val;
+					} else if self.prevout(&op).map(|o| (0..self.n()).any(|i| cold_script(i) == o.script_pubkey)).unwrap_or(false) {
+						let i = (0..self.n()).find(|i| cold_script(*i) == self.prevout(&op).unwrap().script_pubkey).unwrap();
+						to_node[i] += val;
+					} else {
+						return Err(fail("output-left-unclaimed", format!("chan {}: output {} ({} sat) descending from the closed channel is neither spent, nor swept, nor an anchor at the end of the case (announced: {:?})", cl.chan, op, val, self.announced.get(&op))));
+					}
+				},
+				Some(s) => {
+					if !seen_tx.insert(s) {
+						continue;
+					}
+					let Some((stx, _)) = self.sim.chain.confirmed.get(&s).cloned() else { continue };
+					// channel-side inputs and outputs of this transaction (wallet coins and change are the wallet's)
+					let mut cin = 0u64;
+					for i in stx.input.iter() {
+						let po = self.prevout(&i.previous_output);
+						if po.as_ref().map(|o| self.is_wallet_script(&o.script_pubkey)).unwrap_or(false) {
+							continue;
+						}
+						cin += po.map(|o| o.value.to_sat()).unwrap_or(0);
+					}
+					let mut cout = 0u64;
+					for (v, o) in stx.output.iter().enumerate() {
+						if self.is_wallet_script(&o.script_pubkey) {
+							continue;
+						}
+						cout += o.value.to_sat();
+						tracked.push(OutPoint { txid: s, vout: v as u32 });
+					}
+					fees += cin.saturating_sub(cout);
+					if let Some(i) = self.sweeps.get(&s) {
+						gross[*i] += cin;
+					}
+				},
+			}
+		}
+		let total: u64 = to_node.iter().sum::<u64>() + fees + unswept_anchors;
+		if total != value {
+			return Err(fail("harness-accounting", format!("chan {}: accounting does not add up: to nodes {:?} + fees {} + unswept anchors {} != channel value {}", cl.chan, to_node, fees, unswept_anchors, value)).with_key("harness-accounting"));
+		}
+		// each node's announced outputs = its balance output + the HTLCs it won - the fees its own claim
+		// transactions paid out of channel funds
+		for node in [cl.b, cl.c] {
+			let main = if node == cl.b { cl.to_b_sat } else { cl.to_c_sat };
+			let mut won = 0u64;
+			let mut claim_fees = 0u64;
+			let mut claim_txs: BTreeSet<Txid> = BTreeSet::new();
+			for h in cl.htlcs.iter() {
+				let op = OutPoint { txid: cl.txid, vout: h.vout };
+				if let Some((stx, _, Some(by))) = self.spender(&op) {
+					if by == node {
+						won += h.sat();
+						claim_txs.insert(stx.compute_txid());
+					}
+				}
+			}
+			for t in claim_txs.iter() {
+				let (stx, _) = self.sim.chain.confirmed.get(t).cloned().unwrap();
+				let cin: u64 = stx.input.iter().filter_map(|i| self.prevout(&i.previous_output)).filter(|o| !self.is_wallet_script(&o.script_pubkey)).map(|o| o.value.to_sat()).sum();
+				let cout: u64 = stx.output.iter().filter(|o| !self.is_wallet_script(&o.script_pubkey)).map(|o| o.value.to_sat()).sum();
+				claim_fees += cin.saturating_sub(cout);
+			}
+			let announced: u64 = self.announced.iter().filter(|(_, a)| a.node == node && a.chan == Some(cl.chan)).map(|(_, a)| a.value).sum();
+			if announced + claim_fees != main + won {
+				return Err(fail(
+					"node-share-mismatch",
+					format!("node {} chan {}: announced spendable outputs {} sat + claim fees {} sat != balance output {} sat + HTLCs won {} sat", node, cl.chan, announced, claim_fees, main, won),
+				));
+			}
+			if gross[node] != announced {
+				return Err(fail("sweep-mismatch", format!("node {} chan {}: swept {} sat but {} sat were announced", node, cl.chan, gross[node], announced)));
+			}
+		}
+		Ok(())
+	}
+
+	pub fn labels(&self, ctx: &mut Ctx) {
+		let st = &self.stats;
+		ctx.label(match self.case.spec.ctype {
+			CType::Static => "type:static_remote_key",
+			CType::Anchors => "type:anchors_zero_fee_htlc",
+			CType::ZeroFee => "type:zero_fee_commitments",
+		});
+		ctx.label(match self.case.spec.topo {
+			Topology::Pair => "topo:pair",
+			_ => "topo:line3",
+		});
+		ctx.label_if(st.closed_by_api, "closure:api-force-close");
+		ctx.label_if(st.closed_by_mining, "closure:holder-commitment-mined");
+		ctx.label_if(self.closed.is_empty(), "no-commitment-confirmed");
+		ctx.label_if(self.closed.len() > 1, "two-channels-closed");
+		for cl in self.closed.iter() {
+			let info = &self.sim.chans[cl.chan];
+			ctx.label(if cl.b == info.a { "confirmed:funder-commitment" } else { "confirmed:fundee-commitment" });
+			ctx.label_if(cl.newer_signed, "confirmed:previous-unrevoked-commitment");
+			ctx.label_if(!self.harness_txs.contains(&cl.txid) && !self.by.contains_key(&cl.txid), "confirmed:unknown-origin");
+			ctx.label_if(cl.htlcs.is_empty(), "htlcs-at-close:0");
+			ctx.label_if(!cl.htlcs.is_empty() && cl.htlcs.len() < 3, "htlcs-at-close:1-2");
+			ctx.label_if(cl.htlcs.len() >= 3, "htlcs-at-close:3+");
+			ctx.label_if(cl.htlcs.iter().any(|h| h.offerer == cl.b) && cl.htlcs.iter().any(|h| h.offerer == cl.c), "htlcs-both-directions");
+			ctx.label_if(cl.htlcs.iter().any(|h| self.known.contains_key(&(h.receiver, cl.chan, h.hash)) && h.receiver == cl.b), "preimage-known-to-broadcaster");
+			ctx.label_if(cl.htlcs.iter().any(|h| self.known.contains_key(&(h.receiver, cl.chan, h.hash)) && h.receiver == cl.c), "preimage-known-to-counterparty");
+			ctx.label_if(cl.htlcs.iter().any(|h| !self.known.contains_key(&(h.receiver, cl.chan, h.hash))), "preimage-known-to-nobody");
+			ctx.label_if(cl.to_b_sat == 0 || cl.to_c_sat == 0, "a-balance-output-missing");
+		}
+		ctx.label_if(st.late_claims > 0, "late-preimage-after-close");
+		ctx.label_if(st.rbf_bumps > 0, "claim-re-issued");
+		ctx.label_if(st.competing > 0, "competing-claims-in-mempool");
+		ctx.label_if(st.bump_events > 0, "bump-transaction-events");
+		ctx.label_if(st.bump_target_raises > 0, "bump-target-raised");
+		ctx.label_if(st.benign_stale > 0, "stale-broadcast-tolerated");
+		ctx.label_if(st.htlc_won_by_preimage > 0, "htlc-resolved-by-preimage");
+		ctx.label_if(st.htlc_won_by_timeout > 0, "htlc-resolved-by-timeout");
+		ctx.label_if(st.sweeps_dust_only > 0, "sweep-all-to-fee");
+		ctx.label(if self.unfinished { "unfinished" } else { "finished" });
+	}
+
+	pub fn nontrivial(&self) -> bool {
+		!self.unfinished && self.closed.iter().any(|cl| !cl.htlcs.is_empty()) && (self.stats.rbf_bumps > 0 || self.stats.competing > 0 || self.stats.bump_target_raises > 0)
+	}
+}
+
+// -------------------------------------------------------------------------------------------------
+// balance shapes
+// -------------------------------------------------------------------------------------------------
+
+#[derive(Clone, Debug)]
+pub enum Shape {
+	Awaiting { amt: u64, height: Option<u32>, src: Option<BalanceSource> },
+	Contentious { amt: u64, timeout: u32, hash: [u8; 32] },
+	MaybeTimeout { amt: u64, height: u32, hash: [u8; 32], outbound_payment: Option<bool> },
+	MaybePreimage { amt: u64, expiry: u32, hash: [u8; 32] },
+}
+
+impl Shape {
+	fn matches(&self, b: &Balance) -> bool {
+		match (self, b) {
+			(Shape::Awaiting { amt, height, src }, Balance::ClaimableAwaitingConfirmations { amount_satoshis, confirmation_height, source }) => {
+				amt == amount_satoshis && height.map(|h| h == *confirmation_height).unwrap_or(true) && src.as_ref().map(|s| s == source).unwrap_or(true)
+			},
+			(Shape::Contentious { amt, timeout, hash }, Balance::ContentiousClaimable { amount_satoshis, timeout_height, payment_hash, .. }) => amt == amount_satoshis && timeout == timeout_height && *hash == payment_hash.0,
+			(Shape::MaybeTimeout { amt, height, hash, outbound_payment }, Balance::MaybeTimeoutClaimableHTLC { amount_satoshis, claimable_height, payment_hash, outbound_payment: op }) => {
+				amt == amount_satoshis && height == claimable_height && *hash == payment_hash.0 && outbound_payment.map(|x| x == *op).unwrap_or(true)
+			},
+			(Shape::MaybePreimage { amt, expiry, hash }, Balance::MaybePreimageClaimableHTLC { amount_satoshis, expiry_height, payment_hash }) => amt == amount_satoshis && expiry == expiry_height && *hash == payment_hash.0,
+			_ => false,
+		}
+	}
+}
+
+pub struct Slot {
+	pub required: bool,
+	pub kind: &'static str,
+	pub what: String,
+	pub shapes: Vec<Shape>,
+}
+
+fn render_slots(s: &[Slot]) -> String {
+	s.iter().map(|x| format!("{}{:?}", if x.required { "" } else { "optional " }, x.shapes)).collect::<Vec<_>>().join("; ")
+}
+
+fn balance_kind(b: &Balance) -> &'static str {
+	match b {
+		Balance::ClaimableOnChannelClose { .. } => "ClaimableOnChannelClose",
+		Balance::ClaimableAwaitingConfirmations { .. } => "ClaimableAwaitingConfirmations",
+		Balance::ContentiousClaimable { .. } => "ContentiousClaimable",
+		Balance::MaybeTimeoutClaimableHTLC { .. } => "MaybeTimeoutClaimableHTLC",
+		Balance::MaybePreimageClaimableHTLC { .. } => "MaybePreimageClaimableHTLC",
+		Balance::CounterpartyRevokedOutputClaimable { .. } => "CounterpartyRevokedOutputClaimable",
+	}
+}
+
+fn reject_kind(r: &Reject) -> &'static str {
+	match r {
+		Reject::MissingInput(_) => "missing-input",
+		Reject::AlreadySpent(..) => "already-spent",
+		Reject::Script(_) => "script",
+		Reject::NonFinal { .. } => "non-final",
+		Reject::CsvImmature { .. } => "csv",
+		Reject::NegativeFee { .. } => "negative-fee",
+		Reject::MempoolConflict(_) => "mempool-conflict",
+		Reject::Duplicate => "duplicate",
+	}
+}
+
+fn describe_desc(d: &SpendableOutputDescriptor) -> String {
+	match d {
+		SpendableOutputDescriptor::StaticOutput { outpoint, output, .. } => format!("StaticOutput {}:{} {} sat", outpoint.txid, outpoint.index, output.value.to_sat()),
+		SpendableOutputDescriptor::DelayedPaymentOutput(x) => format!("DelayedPaymentOutput {}:{} {} sat to_self_delay {}", x.outpoint.txid, x.outpoint.index, x.output.value.to_sat(), x.to_self_delay),
+		SpendableOutputDescriptor::StaticPaymentOutput(x) => format!("StaticPaymentOutput {}:{} {} sat", x.outpoint.txid, x.outpoint.index, x.output.value.to_sat()),
+	}
+}
+
+/// Run one case end to end.
+pub fn run_case(case: &Case, ctx: &mut Ctx, tail_blocks: u32) -> CaseResult {
+	let mut r = Run::new(case);
+	let res = run_inner(&mut r, ctx, tail_blocks);
+	if ctx.replay && res.is_err() {
+		println!("==== history ====\n{}", crate::oracle_commit::dump_history(&r.sim));
+	}
+	res
+}
+
+fn run_inner(r: &mut Run, ctx: &mut Ctx, tail_blocks: u32) -> CaseResult {
+	let spec = r.case.spec.clone();
+	r.observe()?;
+	for op in r.case.ops.iter() {
+		let tag = apply(&mut r.sim, &spec, op);
+		r.tags.push(tag);
+		r.observe()?;
+		if tag == "mine" {
+			// blocks before the closure: an HTLC nearing its expiry may make a node close by itself
+			r.process_all_events(false)?;
+			r.check_balances()?;
+			r.check_timeliness()?;
+		}
+	}
+	if !r.closed.is_empty() || r.sim.chans.iter().enumerate().any(|(i, c)| r.sim.chan_details(c.a, i).is_none() || r.sim.chan_details(c.b, i).is_none()) {
+		r.stats.closed_automatically = true;
+	}
+	r.close()?;
+	for st in r.case.steps.iter() {
+		for p in st.pre.iter() {
+			r.apply_pre(p)?;
+		}
+		r.block(&st.incl, st.pump)?;
+	}
+	r.tail(tail_blocks)?;
+	if !r.unfinished {
+		r.final_checks()?;
+	}
+	r.labels(ctx);
+	ctx.label_if(r.stats.closed_automatically, "closure:before-the-close-op");
+	ctx.nontrivial_if(r.nontrivial());
+	ctx.sub_evaluations(r.stats.broadcasts + r.stats.balance_checks + r.stats.timeliness_checks + r.stats.sweeps);
+	ctx.summary(serde_json::json!({
+		"type": format!("{:?}", r.case.spec.ctype),
+		"topo": format!("{:?}", r.case.spec.topo),
+		"close": format!("{:?}", r.case.close),
+		"ops": r.tags,
+		"closed": r.closed.iter().map(|c| serde_json::json!({"chan": c.chan, "broadcaster": c.b, "conf_height": c.conf, "htlcs": c.htlcs.len(), "to_b": c.to_b_sat, "to_c": c.to_c_sat})).collect::<Vec<_>>(),
+		"blocks": r.stats.blocks,
+		"broadcasts": r.stats.broadcasts,
+		"re_issued_claims": r.stats.rbf_bumps,
+		"sweeps": r.stats.sweeps,
+	}));
+	Ok(())
+}
